@@ -146,7 +146,7 @@ theorem sendStoredLoop_fr (l) (c : C) : Fr c (sendStoredLoop c l).1 := by
     · unfold sendStoredLoop
       simp only [hz, if_false]
       refine Fr.trans ?_ (ih _)
-      by_cases h1 : c.s.sendMax.isSome = true <;> by_cases h2 : c.s.sendCount ≥ 65535 <;>
+      by_cases h1 : c.s.sendMax.isSome = true <;> by_cases h2 : c.s.sendCount ≥ 4294967295 <;>
         simp [h1, h2, Fr, C.setPanic]
 
 theorem sendStored_fr (c : C) : Fr c (sendStored c) := by
@@ -173,11 +173,11 @@ theorem sendStoredLoop_all {P : Ev → Prop} (hP : Lax P) (l) (c : C) (h : EvAll
       simp only [hz, if_false]
       have hp : P (.send p none) := hs (id, p) (List.mem_cons_self) (by simpa using hz)
       refine ih _ ?_ ?_
-      · by_cases h1 : c.s.sendMax.isSome = true <;> by_cases h2 : c.s.sendCount ≥ 65535 <;>
+      · by_cases h1 : c.s.sendMax.isSome = true <;> by_cases h2 : c.s.sendCount ≥ 4294967295 <;>
           simp [h1, h2, h, hp]
       · intro x hx
         have := hs x (List.mem_cons_of_mem _ hx)
-        by_cases h1 : c.s.sendMax.isSome = true <;> by_cases h2 : c.s.sendCount ≥ 65535 <;>
+        by_cases h1 : c.s.sendMax.isSome = true <;> by_cases h2 : c.s.sendCount ≥ 4294967295 <;>
           simpa [h1, h2] using this
 
 theorem sendStored_all {P : Ev → Prop} (hP : Lax P) (c : C) (h : EvAll P c.ev)
